@@ -43,7 +43,7 @@ CLAIMED = {
         "Python oracles (plain dict simulation of the property text, Python's json module reading the database file, posixpath).",
    design="§4 C19", technique="Coq proof (induction over rune lists, JSON values and command histories; lia for the UTF-8 bit arithmetic) over hand model; "
                              "extracted-model-vs-Go differential correspondence through klog.Run; oracle-only suite on the raw database file",
-   note=TB + "Axioms: none (Closed under the global context, 18 theorems). Operating-system behaviour (filepath.Abs/Clean, file existence) is NOT modelled "
+   note=TB + "Axioms: none (Closed under the global context, 19 theorems). Operating-system behaviour (filepath.Abs/Clean, file existence) is NOT modelled "
              "inside the theorems: it is a universally quantified parameter with three stated hypotheses, which the suite 'paths' checks on the real "
              "filepath functions; the executable model instantiates it with a lexical Unix Clean/Join/Abs that the same suite compares with Go's. "
              "The scanner's 10,000-level nesting limit of encoding/json is not modelled. Argument strings pass through kong's JSON transcoding (modelled: "
@@ -56,8 +56,10 @@ CLAIMED = {
         "whole output of `klog print` as a document tree): for EVERY theme whose emitted units are concatenations of complete SGR sequences, everything "
         "seqs emits is stripped to nothing; strip(render theme doc) = strip(render no_colour doc) for every document tree in which no SGR-shaped byte "
         "sequence straddles a style boundary of the unstyled text -- and that hypothesis is proved to be exactly the weakest (iff, decided by a boolean "
-        "checker; refuted without it); the output of `klog print` satisfies it for every list of records with ARBITRARY summary bytes (tags start with "
-        "'#', values are ESC-free); strip distributes over concatenation unless a sequence straddles the seam; strip is not idempotent (witness) but is "
+        "checker; refuted without it); the outputs of `klog print` and `print --with-totals` satisfy it for every list of records with ARBITRARY summary "
+        "bytes (tags start with '#', values are ESC-free); a table whose cells are documents prints under every theme the rendering of ONE document "
+        "and is content-neutral for a guard separator, ESC-free fills and klog's cell shapes incl. a styled text of arbitrary content (tag values); "
+        "strip distributes over concatenation unless a sequence straddles the seam; strip is not idempotent (witness) but is "
         "on ESC-free residues; a table built from tidy cells (any theme's styling, valid UTF-8, one-character fills) with a full last row never panics "
         "and every printed row shows sum of column widths + (columns-1)*|separator| runes after stripping, the widths being identical under any two "
         "themes; ragged tables and wide fills are the stated counter-examples. Tied to the code by correspondence suites (all schemes x all 484 prop "
@@ -67,11 +69,34 @@ CLAIMED = {
    design="§4 C18", technique="Coq proof (structural / length induction over byte lists, token lists and document trees; boolean reflection for the decidable "
                              "side conditions) over hand model; extracted-model-vs-Go differential correspondence; end-to-end metamorphic oracle over "
                              "colour-scheme variants",
-   note=TB + "Axioms: none (Closed under the global context, 18 theorems; 4 are stated *_refuted witnesses, 2 are *_partial: idempotence of strip only "
-             "on ESC-free residues; the boundary-safety argument is carried out in Coq for `print` only, the other five commands are covered by the "
-             "end-to-end suite). Visible width = rune count after stripping, as the property says; terminal cell width of wide characters is out of "
+   note=TB + "Axioms: none (Closed under the global context, 22 theorems; 5 are stated *_refuted witnesses, 2 are *_partial: idempotence of strip only "
+             "on ESC-free residues; that the outputs of total/report/tags/today are documents of the proved shapes is read off the Go code and "
+             "exercised end to end, a model-level correspondence exists for `print` and for tables in general only). Visible width = rune count after stripping, as the property says; terminal cell width of wide characters is out of "
              "scope. Known finding K18 (StripAllAnsiSequences does not recognise the parameterless SGR sequence ESC[m, so `klog tags --values` misaligns "
              "a row whose quoted tag value contains it) is printed, not suppressed beyond inputs whose only discrepancy is that sequence."),
+ "C15": dict(
+   text="Theorems in coq/Properties/C15.v over the executable model of klog's calendar code (coq/Model/Calendar.v, coq/Model/Period.v). "
+        "Reference = the Gregorian rule itself (next_day from month lengths and the 4/100/400 leap rule): the day-number functions are mutually inverse "
+        "on every date of every year (closed form by lia; one 400-year era swept by the kernel VM and lifted by the 146,097-day period) and advance by one "
+        "per next_day; from that, for ALL dates 0000-01-01..9999-12-31 and without further enumeration: Date.IsAfterOrEqual = day order, PlusDays = n days "
+        "later or a panic exactly outside 0000..9999, weekday (Monday=1, 1970-01-01 Thursday, +1 per day), ISO week (the 7 days Monday..Sunday and only they "
+        "share (year, week); week 1 contains January 4th; numbers consecutive, last week 52/53 by the Thursday/leap-Wednesday rule), quarter; "
+        "Week/Month/Quarter/Year Period() returns (s,u) with s <= d <= u, s/u the first/last day, every date in [s,u] has the same period; "
+        "Previous().Period() is the period of the same kind that ends the day before s; Hash() never panics and is equal exactly for dates of the same period "
+        "(all valid dates, ISO year -1 included); NewPeriodFromPatternString returns Ok (since, until) iff the string is YYYY / YYYY-MM / YYYY-Qq / YYYY-Ww[w] "
+        "naming an existing representable period, with exactly its bounds, and Err otherwise. Where the Go code panics (first/last week, Previous() in year 0000, "
+        "patterns 9999-W52..W99) the model says Crash, the guards exclude exactly those dates/strings, the panic itself is proved (C15_period_edge_crash, "
+        "C15_previous_edge_crash, C15_pattern_crash_iff) and the unguarded statements are refuted by witnesses. Tied to the code by a complete correspondence: "
+        "thorough tier = all 3,652,425 dates (weekday, ISO week, quarter, PlusDays x6, 4 Period(), 4 Previous().Period(), 5 Hash()) and every string matching "
+        "one of the four pattern regexps for all 10,000 years (2.21 M strings) plus malformed/mutated strings and 1 M random PlusDays; quick tier = 60 years. "
+        "An independent Python oracle (datetime / isocalendar / fromisocalendar, Gregorian rule for year 0, stateful bucket check for the hashes) is evaluated "
+        "on the implementation's output.",
+   design="§4 C15", technique="Coq proof (lia over div/mod closed forms; one kernel-VM era sweep lifted by a 400-year shift lemma; fuel-bounded loop models) over hand model; "
+                             "extracted-model-vs-Go differential correspondence, exhaustive over the whole finite domain in the thorough tier",
+   note=TB + "Axioms: none (Closed under the global context, 22 theorems; 3 of them are *_refuted witnesses of the panics). Known findings printed, not suppressed beyond their exact inputs: "
+             "K4 (Week.Period() panics for 0000-01-01/02 and 9999-12-27..31; Previous() panics where the previous week/month/quarter/year would lie before 0000-01-01) and "
+             "F8 (NewPeriodFromPatternString panics on 9999-W52 .. 9999-W99, reachable via --period). Quarter() uses float64 ceil in Go and integer division in the model: covered by the "
+             "exhaustive correspondence, not by proof."),
 }
 
 NOT_YET = {}
